@@ -83,8 +83,12 @@ class Environment:
         temperature: float | None = None,
         wavelength: float | WavelengthHandling | None = None,
     ):
-        if isinstance(temperature, int | float) and not (0.0 < temperature <= 1000.0):
-            raise ValueError("'temperature' must be between 0.0 and 1000.0.")
+        if temperature is not None:
+            # Convert first (e.g. a numeric text or a numpy scalar), then check the range
+            temperature = float(temperature)
+
+            if not (0.0 < temperature <= 1000.0):
+                raise ValueError("'temperature' must be between 0.0 and 1000.0.")
 
         if isinstance(wavelength, int | float) and not (wavelength > 0.0):
             raise ValueError("'wavelength' must be strictly positive.")
